@@ -752,3 +752,46 @@ package connect
 //@     invariant 0 - 1 <= rangeindex && rangeindex < |o.options| && unfoldDpre(seq(o.options), rangeindex + 1)
 //@     invariant flat(config.Interceptor) == old(flat(config.Interceptor)) ++ dpre(seq(o.options), rangeindex + 1)
 //@     decreases |o.options| - rangeindex
+
+//@ func WithCodec(codec) res
+//@   tags C16
+//@   ensures fresh(res) && typeis(res, "*codecOption")
+//@ func withProtoBinaryCodec() res
+//@   tags C16
+//@   ensures res != nil && decl(res) == []
+//@ func withProtoJSONCodec() res
+//@   tags C16
+//@   ensures res != nil && decl(res) == []
+//@ func newCompressionPool(newDecompressor, newCompressor) res
+//@   tags C16, C08
+//@   ensures fresh(res)
+//@ func withGzip() res
+//@   tags C16
+//@   ensures res != nil && decl(res) == []
+//@ trusted func Codec.Name(c) res
+//@   doc: "Name returns the name of the Codec (no effect on any modelled state)."
+//@ func (*clientConfig).validate(c) res
+//@   tags C16, C08
+//@   requires c != nil
+//@   ensures res != nil ==> asErr(res) == res
+
+// The option lists are applied left to right after the built-in defaults (which declare no interceptors).
+//@ func newHandlerConfig(procedure, options) res
+//@   tags C16
+//@   nosafety nil
+//@   assigns everything
+//@   ensures res != nil && flat(res.Interceptor) == dpre(seq(options), |options|)        // label: chain-is-the-flattened-option-list
+//@   loop rangeindex:
+//@     invariant 0 - 1 <= rangeindex && rangeindex < |options| && unfoldDpre(seq(options), rangeindex + 1)
+//@     invariant flat(config.Interceptor) == dpre(seq(options), rangeindex + 1)
+//@     decreases |options| - rangeindex
+
+//@ func newClientConfig(url, options) (res, err)
+//@   tags C16
+//@   nosafety nil
+//@   assigns everything
+//@   ensures err == nil ==> res != nil && flat(res.Interceptor) == dpre(seq(options), |options|)        // label: chain-is-the-flattened-option-list
+//@   loop rangeindex:
+//@     invariant 0 - 1 <= rangeindex && rangeindex < |options| && unfoldDpre(seq(options), rangeindex + 1)
+//@     invariant flat(config.Interceptor) == dpre(seq(options), rangeindex + 1)
+//@     decreases |options| - rangeindex
